@@ -429,6 +429,14 @@ func reportViolation(spec *RunSpec, v *Violation, st *Stats, replayDir string, d
 					break
 				}
 			}
+			if !found && h.ProcHist.FromRun != curProc.Shard {
+				// state that accumulates over the whole life of the process (a table that is reset
+				// after N insertions): everything this worker executed, from its first run
+				ph := *curProc
+				ph.FromRun, ph.UntilRun, ph.Needed = curProc.Shard, spec.Run, true
+				h.ProcHist = &ph
+				found = fresh(h)
+			}
 			if found {
 				final = h
 				verified = true
